@@ -32,7 +32,7 @@ CHECKS = {
     "C04": (
         "progmc c04",
         "bounded-exhaustive enumeration of (result type, value, block placement) cases: the comptime copy (evaluated by the real comptime JIT) and the runtime copy of the same expression are both printed by an executable built by the real CLI and compared with the model value",
-        "33 result types (every int width incl. 128-bit at boundary values, f32/f64, bool, arrays incl. nested, structs incl. nested and float fields, enums with payloads and custom discriminants, optionals, error unions, arrays/structs of sum types; two values per top-level shape) x 9 placements (annotated global whose block yields the literal, annotated global whose block yields a local of the annotated type, local ::, local :=, inline argument, nested comptime, block with locals and a loop, block calling a helper, field of a struct literal) + 16 computing blocks (loops, helper calls, const-global reads, wrap-around at 8/32 bits, shifts, signed division, float->int, narrowing) each as local and as global + `type` results used as annotations + strings + 13 side-effect programs (marker printed exactly once by the compiler, never by the program, under 0/1/3 uses, in a loop, in a function called twice, second run; value-yielding, void and zero-sized blocks).",
+        "33 result types (every int width incl. 128-bit at boundary values, f32/f64, bool, arrays incl. nested, structs incl. nested and float fields, enums with payloads and custom discriminants, optionals, error unions, arrays/structs of sum types; two values per top-level shape) x 9 placements (annotated global whose block yields the literal, annotated global whose block yields a local of the annotated type, local ::, local :=, inline argument, nested comptime, block with locals and a loop, block calling a helper, field of a struct literal) + 16 computing blocks (loops, helper calls, const-global reads, wrap-around at 8/32 bits, shifts, signed division, float->int, narrowing) each as local and as global + weakly typed bodies (untyped literals, arithmetic, locals; 8 integer types x 5-8 bodies) flowing into 7 kinds of destination (plain / optional / error-union annotation, `::` optional, argument, optional argument, struct members) and untyped array literals into slices / arrays / optional arrays, each against the runtime copy + `type` results used as annotations + strings + 13 side-effect programs (marker printed exactly once by the compiler, never by the program, under 0/1/3 uses, in a loop, in a function called twice, second run; value-yielding, void and zero-sized blocks).",
         "Bodies are deterministic; pointer- and function-valued results are rejected by design and not generated; values beyond the listed ones are not covered.",
         "§4 C04",
     ),
@@ -40,7 +40,7 @@ CHECKS = {
         "progmc c05",
         "bounded-exhaustive enumeration of binding skeletons x global configurations, each compiled by the real CLI, against a reference resolver (exact set of undefined-reference lines, or printed values of every use)",
         "Every item sequence of <= 3 items with at most one nested construct over {declare a, declare b, block, if, while, switch arm with argument a/b (with a `nil` arm and with a default arm), local lambda with parameter a/b, global function with comptime parameter a/b, comptime block with tail a/b}, nested to depth 2, a use of `a` and of `b` at every program point, x 4 global configurations (global a / b present or absent): programs with no undefined use are executed and every use must print the value of the binding the reference resolver picks; for the others the set of `undefined reference` diagnostics must be exactly the predicted lines and nothing else may be reported. The same skeletons with the two names spelled as built-in names (`u8`/`nil`, `f32`/`char`; quick: depth 1): every binding shadows the built-in, a use with no visible binding is the built-in (written in a form only valid for that resolution).",
-        "Uses inside a lambda / comptime body of a name bound in the creating function are not generated (the statement does not decide them); identifier pools {a, b}, {u8, nil}, {f32, char}; depth 2.",
+        "Uses inside a lambda / comptime body of a name bound in the creating function are not generated (the statement does not decide them); identifier pools {a, b}, {u8, nil}, {f32, char}; depth 2; one cross-file family (an imported file whose data globals and functions name its own globals a / b while the importing file defines, or not, unrelated globals of the same names).",
         "§4 C05",
     ),
     "C11": (
@@ -151,7 +151,7 @@ CHECKS = {
     "C09": (
         "progmc c09",
         "bounded-exhaustive enumeration of (value, spelling, context) literal cases compiled (and executed) by the real CLI against the fits-the-type rule and the written value",
-        "29 values near every integer type boundary x up to 12 spellings (plain, four `_` placements, every exact exponent form, hex upper/lower, binary) x 12 annotated types (accept iff it fits; accepted ones print the value) and 7 unannotated contexts (local, const, +0, /2, array element, global, comparison, argument); every printable char literal, every `\\c` escape valid or not in char and string literals, 30 float literals at f32/f64.",
+        "29 values near every integer type boundary x up to 12 spellings (plain, four `_` placements, every exact exponent form, hex upper/lower, binary) x 12 annotated types (accept iff it fits; accepted ones print the value), 9 further typed positions (optional annotation / argument / struct member / return value, plain struct member, return value, array element, assignment, error-union annotation) and 7 unannotated contexts (local, const, +0, /2, array element, global, comparison, argument); every printable char literal, every `\\c` escape valid or not in char and string literals, 30 float literals at f32/f64.",
         "Values are < 2^64; negative numbers are an operator applied to a literal; an unannotated global may be rejected when the value exceeds the default type.",
         "§4 C09",
     ),
